@@ -36,7 +36,7 @@ def parsePv : String → Option PvType
   | "int" => some .int | "b" => some .b | "si" => some .si | "r" => some .r | "c" => some .c | _ => none
 def showPv : PvType → String
   | .int => "int" | .b => "b" | .si => "si" | .r => "r" | .c => "c"
-def parseSub : Char → Option SubCat
+def opParseSub : Char → Option SubCat
   | 'i' => some .i | 'q' => some .q | 'm' => some .m | 'p' => some .p | 'o' => some .other | _ => none
 def showSub : SubCat → String
   | .i => "i" | .q => "q" | .m => "m" | .p => "p" | .other => "o"
@@ -47,7 +47,7 @@ def parseImg (s : String) : Option Img :=
     match s.splitOn "." with
     | [_, sar, pv, bands] => do
       let sr ← (if sar == "s" then some true else if sar == "n" then some false else none)
-      let bs ← (if bands == "-" then some [] else bands.toList.mapM parseSub)
+      let bs ← (if bands == "-" then some [] else bands.toList.mapM opParseSub)
       pure (.gen ⟨sr, ← parsePv pv, bs⟩)
     | _ => none
   else if s == "c" then some .sicdSeg
